@@ -117,6 +117,32 @@ where
     if c.kind == 1 {
         return mon::quiet(|| transparency(c.seed));
     }
+    if c.kind == 2 {
+        // session: several statements on one transcript per role; after an all-accepted session
+        // the two roles must squeeze the same follow-up challenge (they stayed in step throughout)
+        let mut o = CaseOut::new();
+        o.evals = 1;
+        let big = Env::<G>::new(env.curve, 64);
+        let (progs, need) = match crate::checks::c01::session_programs::<G>(&big, c.seed, 24) {
+            Ok(x) => x,
+            Err(e) => {
+                o.inconclusive = Some(e);
+                return o;
+            }
+        };
+        let so = crate::interp::cur::session::<G>(&progs, &need, &env.pc, c.seed ^ 0x9, (c.seed >> 8) as u8 % 3, 1, None);
+        if so.prove.iter().any(|p| p.is_err()) || so.in_order.iter().any(|v| v.is_err()) {
+            o.inconclusive = Some("honest session not accepted in order (see C01)".into());
+            return o;
+        }
+        o.sig(format!("{}|session|k={}|need={:?}", env.curve, progs.len(), need));
+        match so.probes_equal {
+            Some(true) => o.count("session: roles in step after all members", 1),
+            Some(false) => o.violate("returned-transcripts-differ", format!("after a session of {} accepted proofs on one transcript per role (padded sizes {:?}) prover and verifier squeeze different follow-up challenges", progs.len(), need), json!({"programs": progs, "need": need})),
+            None => o.count("session: probe not reached", 1),
+        }
+        return o;
+    }
     let mut o = CaseOut::new();
     o.evals = 0;
     let prog = gen_program(c.seed, &c.cfg);
@@ -398,6 +424,9 @@ fn cases(ctx: &Ctx, curve: &str) -> Vec<Case> {
     }
     for i in 0..8 {
         v.push(Case { curve: curve.into(), seed: r.u64() ^ i, cfg: GenCfg::simple(0, 0), kind: 1 });
+    }
+    for _ in 0..ctx.n(30, 400) {
+        v.push(Case { curve: curve.into(), seed: r.u64(), cfg: GenCfg::simple(0, 0), kind: 2 });
     }
     v
 }
